@@ -147,6 +147,7 @@ type Interp struct {
 	opaques map[string]Value
 	logs    []string // vLog entries (concrete summaries)
 	typeIDs map[string]int
+	pendingTrace []string
 }
 
 type Thread struct {
@@ -168,6 +169,7 @@ type Wake struct {
 }
 
 type PanicState struct {
+	trace     []string
 	val       Value
 	site      string
 	recovered bool
@@ -521,6 +523,9 @@ func (in *Interp) violation(kind, label, site string, extra *Term) {
 	v.Emits = in.emitOut(m)
 	v.Sched = append([]int(nil), in.schedLog...)
 	v.Trace = in.stackTrace()
+	if in.pendingTrace != nil {
+		v.Trace = in.pendingTrace
+	}
 	in.viols = append(in.viols, v)
 }
 
